@@ -356,10 +356,20 @@ def check_c11(rep):
                      'U+10000..=U+10FFFF when surrogate pairs are requested; all non-ASCII cases are pure ASCII text whose '
                      'decoding is c.  Also decided for strings of n code points through escape_non_ascii_chars\' closure '
                      '(output = concatenation of the per-code-point escapes).')
-    rep.outside = ['grouping decision for quantified escaped units (Display for Grapheme)',
-                   'whole-pattern language equality after decoding', 'the compiled core::fmt code itself (modelled from the template bytes)']
+    rep.statement += ('  END TO END (Q02t with escaping, build() from MIR): for 1-2 (3) test cases of 1-2 characters from U+00C0..U+00FF, and for 2 test cases of one astral '
+                      'character from U+1F600..U+1F64F with and without surrogate pairs, the printed pattern is pure ASCII, and decoding its \\u{..} escapes (hexadecimal '
+                      'digits that are symbolic terms of the test-case characters; surrogate escapes re-paired) gives a pattern whose language is exactly the set of test cases.')
+    rep.outside = ['grouping decision for quantified escaped units (C05 Q05g)', 'end to end: non-ASCII characters outside the two stated ranges',
+                   'the compiled core::fmt code itself (modelled from the template bytes)']
     env = Env(rep)
     known, _ = load_known()
+    E_ = {'escape': True}
+    ES_ = {'escape': True, 'surrogates': True}
+    tspecs = [((1,), 'latin1', E_), ((1, 1), 'latin1', E_), ((2, 1), 'latin1', E_), ((1, 1), 'emoticons', E_), ((1, 1), 'emoticons', ES_), ((1, 1), 'latin1', {})]
+    if rep.tier == 'thorough':
+        tspecs += [((2, 2), 'latin1', E_), ((1, 1, 1), 'latin1', E_), ((2, 1), 'emoticons', ES_), ((2, 1), 'latin1', dict(E_, verbose=True)), ((2, 1), 'latin1', dict(E_, capture=True)),
+                   ((2, 1), 'latin1', ES_), ((2,), 'latin1', dict(E_, repetitions=True))]
+    run_text_obligations(rep, env, known, tspecs)
     ob = ob_add(rep, env.run('q11'))
     nmax = 2 if rep.tier == 'quick' else 3
     obs = [ob]
@@ -419,6 +429,8 @@ def check_c11(rep):
 
 
 def replay_c11(env, rec):
+    if 'pipeline' in rec['inputs']:
+        return replay_c02(env, rec)
     if 'units' in rec['inputs']:
         got = env.eval([{'op': 'char_count', 'units': rec['inputs']['units'], 'escaped': rec['inputs']['escaped']}])
         return got[0].get('ok') != rec['expected'], 'char_count = %s, expected %s' % (got[0].get('ok'), rec['expected'])
@@ -2010,9 +2022,10 @@ def check_c06(rep):
     # end to end on small inputs: verbose mode and capturing groups leave the language of the printed pattern unchanged
     # (= the test cases), the (?x) text stays valid, and the group kind is the requested one everywhere
     specs = [((2, 1), 'letters', {'verbose': True}), ((2, 1), 'letters', {'capture': True}), ((1, 1), 'ascii', {'verbose': True}),
-             ((2, 1), 'letters', {'verbose': True, 'capture': True})]
+             ((2, 1), 'letters', {'verbose': True, 'capture': True}), ((2, 1), 'latin1', {'escape': True}), ((1, 1), 'latin1', {'escape': True, 'verbose': True})]
     if rep.tier == 'thorough':
-        specs += [((2, 2), 'letters', {'verbose': True}), ((2,), 'ascii', {'verbose': True}), ((2, 2), 'letters', {'capture': True}), ((1, 1), 'ascii', {'capture': True})]
+        specs += [((2, 2), 'letters', {'verbose': True}), ((2,), 'ascii', {'verbose': True}), ((2, 2), 'letters', {'capture': True}), ((1, 1), 'ascii', {'capture': True}),
+                  ((2, 1), 'latin1', {'escape': True, 'capture': True}), ((1, 1), 'emoticons', {'escape': True, 'verbose': True})]
     run_text_obligations(rep, env, known, specs)
 
 
@@ -2168,6 +2181,13 @@ def replay_pipeline(env, cases, settings, clause):
     pat = got[0].get('ok')
     if pat is None:
         return True, 'build() panics: %s' % str(got[0])[:200], {}
+    if settings.get('escape') and any(c >= 0x80 for c in pat):
+        return True, 'build(%s, %s) = %s is not pure ASCII' % ([''.join(map(chr, s_)) for s_ in cases], ','.join(sorted(settings)), json.dumps(''.join(map(chr, pat)))), {'pattern': pat}
+    if settings.get('surrogates'):
+        # surrogate escapes are not regex-crate syntax: re-pair them into the code point before compiling
+        txt = re.sub(r'\\u\{(d[89ab][0-9a-f]{2})\}\\u\{(d[c-f][0-9a-f]{2})\}',
+                     lambda m_: '\\u{%x}' % (0x10000 + ((int(m_.group(1), 16) - 0xD800) << 10) + (int(m_.group(2), 16) - 0xDC00)), ''.join(map(chr, pat)))
+        pat = [ord(ch) for ch in txt]
     alphabet = sorted(set(c for s_ in cases for c in s_)) or [0x61]
     max_len = max(len(s_) for s_ in cases) + 1
     lang = env.eval([{'op': 'regex_language', 'pattern': pat, 'alphabet': alphabet, 'max_len': max_len}])[0].get('ok')
@@ -2207,7 +2227,7 @@ def run_pipeline_obligations(rep, env, known, specs, clause):
 def run_text_obligations(rep, env, known, specs):
     """end-to-end obligations on the printed pattern under non-default settings; specs: [(lens, domain, settings)]"""
     smap = {'repetitions': 'repetitions', 'verbose': 'verbose', 'capture': 'capture_groups', 'no_start_anchor': 'no_start_anchor',
-            'no_end_anchor': 'no_end_anchor', 'escape': 'escape'}
+            'no_end_anchor': 'no_end_anchor', 'escape': 'escape', 'surrogates': 'surrogates'}
     env.prefetch([('q02t', (lens, False, dom, settings), {}) for lens, dom, settings in specs])
     for lens, dom, settings in specs:
         o = ob_add(rep, env.run('q02t', lens, False, dom, settings))
